@@ -380,7 +380,7 @@ func (tb *TermBuilder) resolve(a *ssa.Alloc, path []string, depth int, L ssa.Ins
 				if mi, isMI := r.(*ssa.MakeInterface); isMI {
 					for _, rr := range *mi.Referrers() {
 						if c2, ok := rr.(ssa.CallInstruction); ok && (L == nil || tb.writerLive(a, c2, L)) {
-							cands = append(cands, &Term{Op: "outparam", Name: calleeName(c2), V: a})
+							cands = append(cands, projectPath(&Term{Op: "outparam", Name: calleeName(c2), V: a}, path))
 						}
 					}
 				}
@@ -392,7 +392,7 @@ func (tb *TermBuilder) resolve(a *ssa.Alloc, path []string, depth int, L ssa.Ins
 			if !calleeMayWrite(ci, a, path) {
 				continue
 			}
-			cands = append(cands, &Term{Op: "outparam", Name: calleeName(ci), V: a})
+			cands = append(cands, projectPath(&Term{Op: "outparam", Name: calleeName(ci), V: a}, path))
 		}
 		if len(cands) == 0 {
 			return &Term{Op: "zero", Name: tname(deref(a.Type())) + pathString(path)}
@@ -1093,72 +1093,89 @@ func unwrap(v ssa.Value) ssa.Value {
 	}
 }
 
-// liveStores filters the stores into alloc a that may be visible to a load of `path` at L:
-// a store S is dead at L if another store S1 that overwrites at least S's location satisfies
-// S dom S1 dom L (see DESIGN: last dominating store kills earlier dominating ones), or if S cannot reach L.
+// liveStores filters the stores into alloc a that may be visible to a load of `path` at L.
+// A writer W is visible at L iff some CFG path W -> L avoids every *barrier*: the allocation
+// instruction itself (a fresh object) and every other store that overwrites at least W's location.
 func (tb *TermBuilder) liveStores(a *ssa.Alloc, path []string, L ssa.Instruction) []*ssa.Store {
 	all := tb.stores[a]
-	type sp struct {
-		s *ssa.Store
-		p []string
-	}
-	var rel []sp
+	var out []*ssa.Store
 	for _, s := range all {
 		_, p, _ := rootAlloc(s.Addr)
-		if pathEq(p, path) || hasPrefix(path, p) || hasPrefix(p, path) {
-			rel = append(rel, sp{s, p})
-		}
-	}
-	var out []*ssa.Store
-	for _, x := range rel {
-		if x.s.Parent() != tb.F {
-			out = append(out, x.s) // store from a closure: keep
+		if !(pathEq(p, path) || hasPrefix(path, p) || hasPrefix(p, path)) {
 			continue
 		}
-		// reachability S -> L without re-executing the allocation
-		if !tb.writerLive(a, x.s, L) {
+		if s.Parent() != tb.F {
+			out = append(out, s) // store from a closure: keep
 			continue
 		}
-		dead := false
-		for _, y := range rel {
-			if y.s == x.s || y.s.Parent() != tb.F {
-				continue
-			}
-			if hasPrefix(x.p, y.p) && domInstr(x.s, y.s) && domInstr(y.s, L) {
-				dead = true
-				break
-			}
-		}
-		if !dead {
-			out = append(out, x.s)
+		if tb.writerLivePath(a, s, p, L) {
+			out = append(out, s)
 		}
 	}
 	return out
 }
 
-// writerLive: can the effect of writer W on alloc a be visible at L? Not if every path W -> L
-// re-executes the allocation instruction (a fresh object per loop iteration).
 func (tb *TermBuilder) writerLive(a *ssa.Alloc, W, L ssa.Instruction) bool {
+	return tb.writerLivePath(a, W, nil, L)
+}
+
+// writerLivePath: wpath is the location W writes (nil = whole object).
+func (tb *TermBuilder) writerLivePath(a *ssa.Alloc, W ssa.Instruction, wpath []string, L ssa.Instruction) bool {
 	if W.Parent() != L.Parent() || W.Parent() != a.Parent() {
 		return true
 	}
-	wb, lb, ab := W.Block(), L.Block(), a.Block()
-	wi, li, ai := instrIndex(W), instrIndex(L), instrIndex(a)
-	if wb == lb && wi < li {
+	tb.buildStores()
+	barriers := map[ssa.Instruction]bool{ssa.Instruction(a): true}
+	for _, s := range tb.stores[a] {
+		if ssa.Instruction(s) == W || s.Parent() != tb.F {
+			continue
+		}
+		_, sp, _ := rootAlloc(s.Addr)
+		if hasPrefix(wpath, sp) { // s overwrites at least what W wrote
+			barriers[s] = true
+		}
+	}
+	return reachInstrAvoiding(W, L, barriers)
+}
+
+// reachInstrAvoiding: is there a CFG path from just after W to L that executes no barrier instruction?
+func reachInstrAvoiding(W, L ssa.Instruction, barriers map[ssa.Instruction]bool) bool {
+	scan := func(b *ssa.BasicBlock, from int) (hit bool, through bool) {
+		for k := from; k < len(b.Instrs); k++ {
+			if b.Instrs[k] == L {
+				return true, false
+			}
+			if barriers[b.Instrs[k]] {
+				return false, false
+			}
+		}
+		return false, true
+	}
+	hit, through := scan(W.Block(), instrIndex(W)+1)
+	if hit {
 		return true
 	}
-	// leaving W's block: if the alloc is later in W's block it is re-executed only on re-entry, fine.
-	// arriving at L's block from outside: barrier if the alloc precedes L in that block.
-	if lb == ab && ai < li {
+	if !through {
 		return false
 	}
-	avoid := map[*ssa.BasicBlock]bool{ab: true}
-	if wb == ab {
-		// start after W; A is before W in the same block (an alloc precedes its uses)
-		delete(avoid, ab)
-		avoid[ab] = true
+	seen := map[*ssa.BasicBlock]bool{}
+	stack := append([]*ssa.BasicBlock{}, W.Block().Succs...)
+	for len(stack) > 0 {
+		b := stack[len(stack)-1]
+		stack = stack[:len(stack)-1]
+		if seen[b] {
+			continue
+		}
+		seen[b] = true
+		hit, through := scan(b, 0)
+		if hit {
+			return true
+		}
+		if through {
+			stack = append(stack, b.Succs...)
+		}
 	}
-	return reachesAvoiding(wb, lb, avoid)
+	return false
 }
 
 // calleeMayWrite: may the call write the location `path` of alloc a that it receives by pointer?
@@ -1218,4 +1235,15 @@ func storedPathsThrough(p *ssa.Parameter) (paths [][]string, all bool) {
 	}
 	visit(p, nil)
 	return
+}
+
+func projectPath(t *Term, path []string) *Term {
+	for _, p := range path {
+		if strings.HasPrefix(p, "[") {
+			t = &Term{Op: "index", Args: []*Term{t, {Op: "any", Name: p}}}
+		} else {
+			t = &Term{Op: "field", Name: strings.TrimPrefix(p, "."), Args: []*Term{t}}
+		}
+	}
+	return t
 }
